@@ -225,7 +225,10 @@ class Inventory:
     def symtabs(self):
         out = []
         for s, lab in zip(self.scopes, self.scope_labels):
-            out.append([lab, {str(k): type_dump(v) for k, v in sorted(dict.items(s.symbol_attrs))}])
+            # entries 'a%b' of derived-type members are a cache that loki fills whenever a member's type is first looked up
+            # (also by our own observation walk): they are not table *contents* and are left out of the snapshot; the
+            # types of member symbols are compared through the resolved types of the symbols in the IR ('types')
+            out.append([lab, {str(k): type_dump(v) for k, v in sorted(dict.items(s.symbol_attrs)) if '%' not in str(k)}])
         return out
 
     def token(self, symbol, foreign=()):
@@ -261,6 +264,26 @@ class Inventory:
         return set(self.scope_index)
 
 
+def _is_plain_deferred(x):
+    return isinstance(x, dict) and len(x) == 1 and str(x.get('dtype', '')).lower().endswith('deferred')
+
+
+def no_lazy_deferred(x):
+    """
+    A symbol without a table entry (type None) gets an entry SymbolAttributes(DEFERRED) as soon as anything clones or
+    re-creates it with its scope attached (TypedSymbol.__init__ stores a deferred type) - fgen, `variables` of a derived
+    type parent, and our own observation walk do that. "No type" and "deferred type without any attribute" are therefore
+    the same observation: both are mapped to None (in tables: the entry is left out).
+    """
+    if _is_plain_deferred(x):
+        return None
+    if isinstance(x, dict):
+        return {k: no_lazy_deferred(v) for k, v in x.items()}
+    if isinstance(x, list):
+        return [no_lazy_deferred(v) for v in x]
+    return x
+
+
 def snapshot(obj, foreign=(), inv=None):
     """everything that must stay the same while *another* copy is edited"""
     inv = inv or Inventory(obj)
@@ -269,11 +292,12 @@ def snapshot(obj, foreign=(), inv=None):
         snap['fgen'] = fgen_of(obj)
     except Exception as e:  # noqa: an edited copy may be left in a state fgen cannot print
         snap['fgen'] = f'<fgen raises {type(e).__name__}>'
-    snap['dump'] = dump_of(obj)
-    snap['symtab'] = inv.symtabs()
+    snap['dump'] = no_lazy_deferred(dump_of(obj))
+    snap['symtab'] = [[lab, {k: v for k, v in tab.items() if v is not None and not _is_plain_deferred(v)}]
+                      for lab, tab in inv.symtabs()]
     snap['scoping'] = inv.scope_tokens(foreign)
     snap['attr-scoping'] = inv.attr_tokens(foreign)
-    snap['types'] = inv.types()
+    snap['types'] = no_lazy_deferred(inv.types())
     snap['names'] = [s.name.lower() for s, _ in inv.occurrences]
     return snap
 
